@@ -197,7 +197,7 @@ var kinds = map[string]kindDef{
 		return pick(v, enctypes.Str1{}, enctypes.Str1{A: 1, B: 2.5, C: true, D: 5}, enctypes.Str1{D: 5})
 	}},
 	"Str2": {typ: reflect.TypeOf(enctypes.Str2{}), val: func(v string) any {
-		return pick(v, enctypes.Str2{}, enctypes.Str2{D: 5, A: 1, C: true, B: 2.5, E: 1.5, F: true}, enctypes.Str2{A: 1, B: 2.5})
+		return pick(v, enctypes.Str2{}, enctypes.Str2{D: 5, A: 1, C: true, B: 0.1234567890123, E: 0.1234567890123, F: true}, enctypes.Str2{A: 1, B: 2.5})
 	}},
 	"Col1": {typ: reflect.TypeOf(enctypes.Col1{}), tagsOnly: true, val: func(v string) any {
 		return pick(v, enctypes.Col1{}, enctypes.Col1{Kind: "k", Type: "t"}, enctypes.Col1{Type: "t"})
